@@ -4,19 +4,15 @@ From RM Require Import C08.Proofs C14.Model C14.Proofs.
 Open Scope Z_scope.
 
 (* Exactly one call stack per entry of the thread list, in the same order, with the same
-   thread ids; every thread that is not the dump-writer thread carries the name the thread
-   names stream gives its id (the dump-writer thread's stack is the bare
-   CallStack::with_info(id, DumpThreadSkipped): no name, no frames). No bound on the number
-   of threads. *)
+   thread ids and the names the thread names stream gives those ids (also for the skipped
+   dump-writer thread, since /repo 4b7b5e8 — finding F-C14a). No bound on the number of threads. *)
 Theorem c14_threads_one_to_one : forall d : dump,
   length (threads_of d) = length (d_threads d) /\
   map cs_id (threads_of d) = map t_id (d_threads d) /\
   forall i t cs, nth_error (d_threads d) i = Some t -> nth_error (threads_of d) i = Some cs ->
-    cs_id cs = t_id t /\
-    (dump_tid d = Some (t_id t) ->
-       cs_info cs = CsDumpThreadSkipped /\ cs_name cs = None /\ cs_ctx cs = None) /\
-    (dump_tid d <> Some (t_id t) ->
-       cs_name cs = get_name (d_names d) (t_id t) /\ cs_info cs <> CsDumpThreadSkipped).
+    cs_id cs = t_id t /\ cs_name cs = get_name (d_names d) (t_id t) /\
+    (dump_tid d = Some (t_id t) -> cs_info cs = CsDumpThreadSkipped /\ cs_ctx cs = None) /\
+    (dump_tid d <> Some (t_id t) -> cs_info cs <> CsDumpThreadSkipped).
 Proof. exact threads_one_to_one. Qed.
 Print Assumptions c14_threads_one_to_one.
 
@@ -165,7 +161,7 @@ Definition ex_dump : dump :=
                     {| t_id := 9; t_ctx := Some {| c_ip := 200; c_sp := 8192 |}; t_stack := None; t_sbase := 0 |};
                     {| t_id := 7; t_ctx := None; t_stack := None; t_sbase := 0 |};
                     {| t_id := 7; t_ctx := Some {| c_ip := 20580; c_sp := 8200 |}; t_stack := Some 0; t_sbase := 4096 |} ];
-     d_names := [(7, Some 1); (7, None); (5, Some 2); (7, Some 3)];
+     d_names := [(7, Some 1); (7, None); (5, Some 2); (9, Some 9); (7, Some 3)];
      d_exc := Some {| e_tid := 7; e_code := 3221225477; e_flags := 0; e_nparams := 2; e_info0 := 1;
                       e_info1 := 18446744071562067968; e_info2 := 0; e_addr := 4198400;
                       e_ctx := Some {| c_ip := 20500; c_sp := 8192 |} |};
@@ -178,7 +174,7 @@ Definition ex_dump : dump :=
 
 Example c14_nonvacuous_threads :
   map cs_id (threads_of ex_dump) = [5; 9; 7; 7] /\
-  map cs_name (threads_of ex_dump) = [Some 2; None; Some 3; Some 3] /\
+  map cs_name (threads_of ex_dump) = [Some 2; Some 9; Some 3; Some 3] /\
   map cs_info (threads_of ex_dump) = [CsOk; CsDumpThreadSkipped; CsOk; CsOk] /\
   requesting_thread ex_dump = Some 3%nat /\
   map cs_ctx (threads_of ex_dump) =
